@@ -20,7 +20,7 @@ const (
 	HzEnumNonMonotonic   = "enum-nonmonotonic"    // explicit enum values that decrease or are negative
 	HzKeywordArg         = "keyword-arg"          // argument/field names that are target keywords or generated identifiers
 	HzContainerKey       = "container-key"        // binary / container / struct typed set elements and map keys
-	HzInclTypedefChain   = "included-typedef-chain"
+	HzInclTypedefChain   = "included-typedef-chain" // a typedef of an include whose target lies in a third file
 	HzScopeNewPair       = "scope-new-pair" // scopes X and NewX in one file (Go: NewXPublisher declared twice)
 	HzTypedefStruct      = "typedef-struct" // a typedef of a struct/union/exception used as a type (Go output does not compile)
 )
@@ -286,7 +286,7 @@ func (b *builder) genType(label string, depth int, key bool, allowKinds map[stri
 			if a.kind == "typedef" && a.file != b.fi && !b.c.Hazards[HzInclTypedefChain] {
 				// an included typedef whose target is itself a typedef/declaration of the included file
 				d := b.p.Decl(a.file, a.name)
-				if d != nil && typeHasRef(d.Type) {
+				if d != nil && typeLeavesFile(b.p, d.Type, a.file, 0) {
 					b.c.Excluded[HzInclTypedefChain]++
 					continue
 				}
@@ -303,6 +303,25 @@ func typeHasRef(t *Type) bool {
 		return false
 	}
 	return t.Kind == "ref" || typeHasRef(t.Key) || typeHasRef(t.Val)
+}
+
+// typeLeavesFile reports whether a type written in file fi mentions, directly or through
+// typedefs of fi, a declaration of another file (a typedef of an include that itself points into
+// a third file cannot be resolved from the including file: known finding).
+func typeLeavesFile(p *Program, t *Type, fi int, depth int) bool {
+	if t == nil || depth > 32 {
+		return false
+	}
+	if t.Kind == "ref" {
+		if t.File != fi {
+			return true
+		}
+		if d := p.Decl(t.File, t.Name); d != nil && d.Kind == "typedef" {
+			return typeLeavesFile(p, d.Type, fi, depth+1)
+		}
+		return false
+	}
+	return typeLeavesFile(p, t.Key, fi, depth+1) || typeLeavesFile(p, t.Val, fi, depth+1)
 }
 
 func (b *builder) undKind(t *Type) string {
